@@ -251,7 +251,10 @@ def run_property(prop, tier, seed, only_job=None):
         if not _built.get(j["variant"], (False,))[0]:
             continue
         n = j.get("shards", {}).get(tier, NCPU) if isinstance(j.get("shards"), dict) else j.get("shards", NCPU)
-        for s in range(n):
+        only = j.get("only_shards")
+        if isinstance(only, dict):
+            only = only.get(tier)
+        for s in range(n if only is None else min(n, only)):
             tasks.append((j, s, n))
     results = []
     # heavy (multi-threaded) jobs get fewer parallel slots
